@@ -158,7 +158,9 @@ def cases(draw):
                 plan[i] = "call"
             seen = True
     site = draw(st.sampled_from(SITES + ["inject", "inject", "inject_cost"]))
-    return dict(plan=plan, site=site, kseed=draw(st.integers(0, 10 ** 6)))
+    # a third of the cases run under a master whose error_handler() protects its own logging with catch(): a catch completes while the
+    # error is being handled
+    return dict(plan=plan, site=site, kseed=draw(st.integers(0, 10 ** 6)), master=draw(st.sampled_from(["std", "std", "catching"])))
 
 
 REGKEYS = ["sp", "csp", "cur", "prev", "prog", "cg", "ci", "chb", "caller_type", "fio", "vio", "es", "ecd", "ef", "cgsd", "nott", "rd"]
@@ -325,32 +327,38 @@ _workers = {}
 _probe = {}
 
 
-def get_worker(ctx):
-    w = _workers.get(ctx.rundir)
+def get_worker(ctx, master="std"):
+    key = (ctx.rundir, master)
+    w = _workers.get(key)
     if w is None:
-        w = Worker(ctx.scratch("w"), timeout=20, mudlib_files=FILES, conf={"MaxEvaluationCost": "300000"})
-        _workers[ctx.rundir] = w
+        files = dict(FILES)
+        if master == "catching":
+            import os
+            from ..worker import BASE_MUDLIB
+            files["master.c"] = open(os.path.join(BASE_MUDLIB, "master.c")).read().replace(
+                "mixed error_handler(mapping m, int caught) {", "mixed error_handler(mapping m, int caught) {\n  mixed lerr;\n  catch(lerr = \"\" + m[\"error\"]);")
+        w = Worker(ctx.scratch("w" + master), timeout=20, mudlib_files=files, conf={"MaxEvaluationCost": "300000"})
+        _workers[key] = w
         r = w.run([["load", "t/c05.c"], ["call", "t/c05", "probe"]])
         pr = r.step(1)
-        _probe[ctx.rundir] = unjson(pr["v"]) if pr and pr.get("st") == "val" else None
+        _probe[key] = unjson(pr["v"]) if pr and pr.get("st") == "val" else None
     return w
 
 
 def close_workers(ctx):
-    w = _workers.pop(ctx.rundir, None)
-    if w:
-        w.close()
+    for key in [k for k in _workers if k[0] == ctx.rundir]:
+        _workers.pop(key).close()
 
 
 def check(ctx, case):
-    w = get_worker(ctx)
-    f, feats = evaluate_case(ctx, w, case, _probe.get(ctx.rundir))
+    w = get_worker(ctx, case.get("master", "std"))
+    f, feats = evaluate_case(ctx, w, case, _probe.get((ctx.rundir, case.get("master", "std"))))
     if f:
         ctx.fail(f[0], case, f[1])
         return
     if feats is None:
         return
-    for x in ["site:" + case["site"]] + ["frame:" + k for k in set(case["plan"])] + sorted(feats):
+    for x in ["site:" + case["site"], "master:" + case.get("master", "std")] + ["frame:" + k for k in set(case["plan"])] + sorted(feats):
         ctx.classes[x] += 1
     if len(ctx.samples) < 4:
         ctx.samples.append(dict(plan=case["plan"], site=case["site"]))
@@ -372,8 +380,8 @@ def shard_main(ctx):
 
 def replay(ctx, case):
     try:
-        w = get_worker(ctx)
-        f, _ = evaluate_case(ctx, w, case, _probe.get(ctx.rundir))
+        w = get_worker(ctx, case.get("master", "std"))
+        f, _ = evaluate_case(ctx, w, case, _probe.get((ctx.rundir, case.get("master", "std"))))
         return f
     finally:
         close_workers(ctx)
